@@ -1185,6 +1185,7 @@ def make_builtins(interp):
         BT[cname].native = True
     TYPE.native = True
     OBJECT.ns["__construct__"] = lambda i, c, a, k: IObj(c)
+    OBJECT.ns["__new__"] = IStaticMethod(INative("object.__new__", lambda cls, *a, **k: IObj(cls)))
     OBJECT.ns["__init__"] = INative("object.__init__", lambda self, *a, **k: None)
     return b
 
